@@ -199,6 +199,23 @@ def check(ctx):
         for key, m in UNARY:
             check_delegate(ctx, cfg, key, m, None, 1)
             n += 1
+        # every OTHER method the comparison impls override (lt / le / gt / ge, ne, max / min ..): an override replaces the provided method
+        # that is derived from partial_cmp / eq / cmp, so it must itself be the slice's method of the same name on the two full views -
+        # `le` written as `!gt` is right for total orders only
+        db = ctx.db(cfg)
+        done = {k for k, _m, _a in BINARY} | {k for k, _m in UNARY}
+        for imp in db.impls:
+            tr = imp.get("trait")
+            if tr not in ("core::cmp::PartialEq", "core::cmp::PartialOrd", "core::cmp::Ord") or not (imp["self"].get("k") == "adt" and imp["self"]["def"] == "GenericArray"):
+                continue
+            rhs = [x for x in imp.get("trait_args", [])[1:] if x.get("k") != "region"]
+            if rhs and not (rhs[0].get("k") == "adt" and rhs[0]["def"] == "GenericArray"):
+                continue   # comparisons with other types are not C13's subject
+            for it_ in imp["items"]:
+                key = db.impl_key(imp) + "::" + it_["name"]
+                if key in done or db.get(key) is None:
+                    continue
+                check_delegate(ctx, cfg, key, tr + "::" + it_["name"], None, 2)
         for key in BORROWS:
             b = ctx.body(cfg, key, "C13.B")
             if b is None:
